@@ -31,6 +31,11 @@ def obligations(tier):
             obs.append(dict(name='card[%s,%s,2x2,K=2]' % (kind, ex), fn='h_join',
                             config={'nl': 2, 'nr': 2, 'kind': kind, 'mode': 'card', 'expect': ex, 'K': 2, 'W': 0, 'ktype': 'int', 'spec': 'name', 'nones': False},
                             budget=200 if q else 900, bounds='2x2 rows, composite key (rows may agree on one component only)', smoke=joinlib.smoke(2, 2, 2, 0)))
+        for ex in ('one_to_one', 'many_to_one', 'one_to_many'):
+            obs.append(dict(name='card[%s,%s,rejoin after a key write]' % (kind, ex), fn='h_join',
+                            config={'nl': 2, 'nr': 2, 'kind': kind, 'mode': 'rejoin', 'K': 1, 'W': 0, 'ktype': 'int', 'spec': 'name', 'nones': False, 'expect': ex},
+                            budget=120 if q else 400, bounds='2x2 rows, every key pattern; join once, write a key cell (possibly creating or removing a duplicate), join again: the expectation is re-evaluated on the current keys',
+                            smoke=[[0, 1, 0, 1, 0, 0] + [0] * 6 + [1, 0, 0, 1, 0, 0, 0, 0, 0, 0, 0, 0] + [-1, -1]]))
         obs.append(dict(name='card[%s,one_to_one,2x2,hash-colliding keys]' % kind, fn='h_join',
                         config={'nl': 2, 'nr': 2, 'kind': kind, 'mode': 'card', 'expect': 'one_to_one', 'K': 1, 'W': 0, 'ktype': 'hashy', 'spec': 'name', 'nones': False},
                         budget=120 if q else 600, bounds='2x2 rows, keys are distinct ints with pairwise colliding hashes', smoke=joinlib.smoke(2, 2, 1, 0)))
